@@ -22,6 +22,9 @@ def main(run):
                 ".link/'. =' and at least one label; distinct by abstract program")
     recs, inc = explore(run, "LinkAlphabet", "LayoutIncFiles", 3, 1, [512], harness_link=False, label="AsmCore link, 1 file x 3 stmts (exhaustive)")
     tasks = replay_all(run, recs, inc, {"harness_link": False}, nontrivial)
+    t4, _ = explore_replay(run, "LinkCoreAlphabet", "LayoutIncFiles", 5 if thorough else 4, 1, [512], {"harness_link": False}, nontrivial, keep=100000,
+                           label=f"AsmCore link core, all programs of <= {5 if thorough else 4} statements", timeout=6000)
+    tasks += t4
     if thorough:
         t1, _ = explore_replay(run, "LinkAlphabet", "LayoutIncFiles", 4, 1, [512], {"harness_link": False}, nontrivial, keep=100000,
                                label="AsmCore link, 1 file x 4 stmts (exhaustive)", timeout=6000)
